@@ -899,20 +899,25 @@ class vPeriod(TimeBase):
             raise ValueError('end_or_duration MUST be a datetime, '
                              'date or timedelta instance')
         by_duration = 0
-        if isinstance(end_or_duration, timedelta):
-            by_duration = 1
-            duration = end_or_duration
-            end = start + duration
-        else:
-            end = end_or_duration
-            duration = end - start
-        if start > end:
-            raise ValueError("Start time is greater than end time")
+        try:
+            if isinstance(end_or_duration, timedelta):
+                by_duration = 1
+                duration = end_or_duration
+                end = start + duration
+            else:
+                end = end_or_duration
+                duration = end - start
+            if start > end:
+                raise ValueError("Start time is greater than end time")
+        except TypeError as e:
+            # date with datetime, or floating with zoned
+            raise ValueError(
+                "Start and end of a period must be of the same kind") from e
 
         self.params = Parameters({'value': 'PERIOD'})
         # set the timezone identifier
         # does not support different timezones for start and end
-        tzid = tzid_from_dt(start)
+        tzid = tzid_from_dt(start) if isinstance(start, datetime) else None
         if tzid:
             self.params['TZID'] = tzid
 
@@ -930,10 +935,10 @@ class vPeriod(TimeBase):
 
     def to_ical(self):
         if self.by_duration:
-            return (vDatetime(self.start).to_ical() + b'/'
+            return (vDDDTypes(self.start).to_ical() + b'/'
                     + vDuration(self.duration).to_ical())
-        return (vDatetime(self.start).to_ical() + b'/'
-                + vDatetime(self.end).to_ical())
+        return (vDDDTypes(self.start).to_ical() + b'/'
+                + vDDDTypes(self.end).to_ical())
 
     @staticmethod
     def from_ical(ical, timezone=None):
